@@ -473,9 +473,11 @@ finding `cleanup-dangling-parent`, established by fixes/C11-cleanup-dangling-par
    incl. the branch where the callback raises after the head was unregistered           proved up to the model giving up (`aged_head_writes`)
   `setAction` (`state.actions[uid] = a`)                                                  proved (`Bisim.Aged.setAction`)
   `updateActionStatusByEvent` (loop over ALL instances; the live iterations over discarded ones do nothing)   proved from I1 (`aged_update_action_status`)
+  `generateUmimEvent` (`_generate_umim_event`), `failedEvent`, `releaseAction` for an action of a kept instance   proved (`aged_outgoing_and_release`)
+  `restartActivated` (restart of an activated flow at the end of `_abort_flow` / `_finish_flow`)               proved from I2 (`aged_restart_activated`)
   `abortFlow`: deactivation loops over `child_flow_uids` (the aged list is the live one filtered; the skipped iterations
-   are no-ops, see above), `releaseAction` → `generateUmimEvent` (128-way case split around proved pieces), `failedEvent`,
-   `restartActivated`      not reached (every piece it reads is covered above; needs I2 and the
+   are no-ops, see above; all other pieces — `isReferenceActivated`, `isChildActivated`, `releaseAction`, `dropHeads`,
+   `setFlowStatus`, `failedEvent`, `restartActivated` — are proved), removal from the parent's child list      not reached (every piece it reads is covered above; needs I2 and the
                                                                                          loop-over-filtered-list argument)
   `eventMatchingScore` (reads `state.actions` for the start arguments of the event's action)   needs: actions named by queued events belong to kept instances — not reached
   `handleEventMatching` (`createEventReference`, `startFlow` look up `source_flow_instance_uid` of the event being
@@ -650,6 +652,20 @@ theorem aged_head_writes {rm : List FUid} {k : CoreIndex.Key} (hk : keepB rm k.1
     skipped by the live run (`sim_forIn_filter`); the others refer to the same action objects in both tables -/
 theorem aged_update_action_status {rm : List FUid} (e : Match.Ev) : Diag rm (updateActionStatusByEvent e) :=
   diag_updateActionStatusByEvent e
+
+/-- `_generate_umim_event` (outgoing event appended, action statuses updated), the `FlowFailed` event of a kept instance, and
+    releasing an action a kept instance refers to (`EndScope`, `_abort_flow`, `_finish_flow`) -/
+theorem aged_outgoing_and_release {rm : List FUid} (e : Match.Ev) {f : FUid} (hk : keepB rm f = true) (scores : List Score)
+    {s s' : VM} (h : Aged rm s s') {x : InstX} (hx : OMap.lookup f s.r.fx = some x) {au : String} (hau : au ∈ x.actionUids) :
+    Diag rm (generateUmimEvent e) ∧ Diag rm (failedEvent f scores) ∧ Sim2U rm Eq (releaseAction au) (releaseAction au) s s' :=
+  ⟨diag_generateUmimEvent e, diag_failedEvent hk scores, sim_releaseAction h hk hx hau⟩
+
+/-- the restart of an activated flow at the end of `_abort_flow` / `_finish_flow` (needs I2: the parent of an activated instance
+    is kept) -/
+theorem aged_restart_activated {rm : List FUid} {s s' : VM} (h : Aged rm s s') (hp : ActParentsKept rm s) {f : FUid}
+    (hk : keepB rm f = true) (scores : List Score) (deactivate : Bool) :
+    Sim2U rm Eq (restartActivated f scores deactivate) (restartActivated f scores deactivate) s s' :=
+  sim_restartActivated h hp hk scores deactivate
 
 /-- what `Diag` says, spelled out on the non-vacuity pair: running `setHeadPos ("m","h0") 1` in `sLive` and in `sAged` -/
 example : Sim2U ["d"] Eq (setHeadPos ("m", "h0") 1) (setHeadPos ("m", "h0") 1) sLive sAged :=
